@@ -23,6 +23,7 @@ CLAUSES = {
     "NoNaNPresented": ("C17",),
     "InfeasibleInputReported": ("C17",),
     "ResetThenPFlowSame": ("C14",),
+    "OutcomeAfterResetAsOnFreshSystem": ("C14",),
     "RepeatedPFlowSame": ("C14", "C16"),
 }
 
@@ -41,16 +42,24 @@ def _tcls(ss):
 
 
 def run_ops(sc):
-    ss = load_case(sc["case"])
+    if sc.get("gen"):
+        # a generated network whose branches, loads and shunts are rated on bases different from the system's
+        from . import pfdrv, netbuild
+        ss, _, _ = netbuild.build(pfdrv.network_spec(*sc["gen"]))
+    else:
+        ss = load_case(sc["case"])
     ss.TDS.config.no_tqdm = 1
     ss.TDS.config.tf = sc.get("tf", 0.05)
     first = None
     p0 = [np.array(ss.PQ.p0.v), np.array(ss.PQ.q0.v)]
     nominal = True
     out = []
+    first_ret = {}
+    after_reset = False
     for op in sc["ops"]:
         fp0 = _fp(ss)
         ec0 = ss.exit_code
+        was_tds_init = {op: bool(ss.TDS.initialized)}      # a routine called on an initialised simulation is a resume, not a first run
         ret = None
         raised = None
         try:
@@ -87,6 +96,14 @@ def run_ops(sc):
                     pf_equal_first = bool(len(sol) == len(first) and np.max(np.abs(sol - first)) <= 1e-9)
         if op == "tds" and ret:
             residual_ok = bool(float(ss.dae.t) == float(ss.TDS.config.tf) and not ss.TDS.busted)
+        # a routine run after a reset ends as it did on the fresh system (same nominal data)
+        reset_outcome_ok = True
+        if op in ("pflow", "tds", "eig") and nominal and raised is None:
+            if op in first_ret and after_reset and not was_tds_init.get(op, False):
+                reset_outcome_ok = bool(bool(ret) == first_ret[op])
+            first_ret.setdefault(op, bool(ret))
+        if op == "reset" and ret:
+            after_reset = True
         nan = bool(np.isnan(ss.dae.x).any() or np.isnan(ss.dae.y).any())
         pfc = ss.PFlow.converged
         x_sol = ss.PFlow.x_sol
@@ -95,7 +112,7 @@ def run_ops(sc):
                         state_unchanged=bool(_fp(ss) == fp0), residual_ok=residual_ok, nan=nan,
                         pf_after=("ok" if (pfc and x_sol is not None) else ("failed" if ss.PFlow.niter or pfc is False and ss.PFlow.mis != [1] else "none")),
                         tds_init=bool(ss.TDS.initialized), tcls=_tcls(ss), busted=bool(ss.TDS.busted),
-                        pf_equal_first=pf_equal_first, nominal=nominal, kind=""))
+                        pf_equal_first=pf_equal_first, nominal=nominal, kind="", reset_outcome_ok=reset_outcome_ok))
     return dict(meta=dict(tid=sc["tid"], sid=sc["sid"]), ev=out)
 
 
@@ -131,6 +148,10 @@ def run_family(rep, pid, quick, only=None):
     for case in cases:
         for q in seqs:
             scs.append(dict(sid="ops[%s|%s]" % (case.split("/")[0], ">".join(q)), case=case, ops=q))
+    if only and "reset" in only:
+        for base in (2, 3):
+            for q in [q_ for q_ in seqs if q_.count("pflow") >= 2 and "tds" not in q_ and "eig" not in q_][:6]:
+                scs.append(dict(sid="ops[generated base %d|%s]" % (base, ">".join(q)), case="generated", gen=[811 + base, "int", base, 1], ops=q))
     for i, sc in enumerate(scs):
         sc["tid"] = i + 1
     res = run_tasks("vh.lifecycle:run_ops", scs, nproc=NCPU, timeout=300)
